@@ -128,8 +128,18 @@ class Resp:
                 "len": len(self.body), "abort_after": self.abort_after}
 
 
+class RequestBudgetExceeded(SystemExit):
+    """One URL was requested more often than any bounded retry policy allows: the run would not
+    terminate.  A SystemExit subclass so that it leaves the event loop through every `except Exception`."""
+
+    def __init__(self, path, n):
+        super().__init__(97)
+        self.path, self.n = path, n
+
+
 class SimUpstream:
     """path -> (script list of Resp, default Resp).  Keeps the request log."""
+    BUDGET = 3000   # answers per path and run; the tool's own bound is 10 per fetch round plus reconnects
 
     def __init__(self):
         self.scripts: dict[str, list[Resp]] = {}
@@ -151,6 +161,8 @@ class SimUpstream:
 
     def next(self, path: str) -> Resp:
         n = self.counts.get(path, 0)
+        if n >= self.BUDGET:
+            raise RequestBudgetExceeded(path, n)
         self.counts[path] = n + 1
         sc = self.scripts.get(path, [])
         r = sc[n] if n < len(sc) else self.default.get(path, self.fallback)
